@@ -236,7 +236,11 @@ var roEntries = []string{
 }
 
 // roTable: writes by the read-only API accepted with a reason. key = function|what
-var roTable = map[string]string{}
+var roTable = map[string]string{
+	"(*kit.JSchemaError).preparation|field kit.JSchemaError.length":   "reached through JSchemaError.Error(), which has a VALUE receiver: String()/preparation() fill the lazily computed fields of the copy made by that call; errors are stored and handed out as values (NewJSchemaError returns a value), so no shared object is written",
+	"(*kit.JSchemaError).preparation|field kit.JSchemaError.nl":       "see length",
+	"(*kit.JSchemaError).preparation|field kit.JSchemaError.prepared": "see length",
+}
 
 func c11ro(c *core.Ctx) {
 	const R = "C11.ro"
